@@ -851,6 +851,27 @@ func (cs *consensus) enterPrecommit() {
 	} else if cs.lockedBlockParts.ID().Equal(partSetID) {
 		cs.log.Traceln("enterPrecommit: update lock round")
 		cs.lockedRound = cs.round
+		// persist the new lock round: applyLockWAL restores the round of
+		// the last recorded polka, so without this a restart would fall
+		// back to the older lock round and a polka of an intermediate
+		// round could unlock a block we have already precommitted.
+		msg := newVoteListMessage()
+		msg.VoteList = prevotes.voteList()
+		if err := cs.lockWAL.WriteMessage(msg); err != nil {
+			cs.log.Errorf("fail to write WAL: enterPrecommit: %+v\n", err)
+		}
+		for i := 0; i < cs.lockedBlockParts.Parts(); i++ {
+			msg := newBlockPartMessage()
+			msg.Height = cs.height
+			msg.Index = uint16(i)
+			msg.BlockPart = cs.lockedBlockParts.GetPart(i).Bytes()
+			if err := cs.lockWAL.WriteMessage(msg); err != nil {
+				cs.log.Errorf("fail to write WAL: enterPrecommit: %+v\n", err)
+			}
+		}
+		if err := cs.lockWAL.Sync(); err != nil {
+			cs.log.Errorf("fail to sync WAL: enterPrecommit: %+v\n", err)
+		}
 		cs.sendVote(VoteTypePrecommit, &cs.lockedBlockParts)
 	} else if cs.currentBlockParts.ID().Equal(partSetID) && cs.currentBlockParts.HasBlockData() {
 		cs.log.Traceln("enterPrecommit: update lock")
